@@ -158,6 +158,14 @@ class EvalMixin:
                     # class-level attribute
                     for c in front.mro(info):
                         for s in c.node.body:
+                            if isinstance(s, (ast.Assign, ast.AnnAssign)) and s.value is not None and not st.spec \
+                                    and any(isinstance(t, ast.Name) and t.id == name for t in (s.targets if isinstance(s, ast.Assign) else [s.target])) \
+                                    and (isinstance(s.value, (ast.Dict, ast.List, ast.Set, ast.ListComp, ast.DictComp, ast.SetComp))
+                                         or (isinstance(s.value, ast.Call) and isinstance(s.value.func, ast.Name)
+                                             and s.value.func.id in ("dict", "list", "set", "defaultdict", "OrderedDict", "deque", "bytearray"))):
+                                # a mutable object created once in the class body is shared by every instance and every call: its
+                                # contents at entry are NOT those of the class body, and no per-call contract here describes them
+                                raise OutsideSubset(f"class-level mutable attribute {c.name}.{name}: state shared between calls and instances")
                             if isinstance(s, ast.Assign) and any(isinstance(t, ast.Name) and t.id == name for t in s.targets):
                                 st.frames.append(Frame({}, c.module, "<class>"))
                                 try:
